@@ -33,6 +33,7 @@ namespace {
       std::function<std::vector<const void*>()> riter;      // --end() .. begin(), through operator->
       std::function<std::vector<const void*>()> post;       // it++ from begin()
       std::function<std::vector<const void*>()> rpost;      // the value of it-- from the last position down to begin()
+      std::function<std::vector<const void*>()> fwalk, rwalk; // one iterator object: read through it, step it with it++; / it--; , read again
       std::function<std::vector<bool>()> eqd, eqo, bend;    // iterator equality: same position, neighbouring positions, begin/end
       std::function<std::size_t()> hsize;                   // helper size (or size)
       std::function<const void*(std::size_t)> hat;          // helper operator[] (or at)
@@ -74,6 +75,22 @@ namespace {
             if (it == seq->begin()) { v.push_back(key(*it)); break; }
             auto old = it--;
             v.push_back(key(*old));
+         }
+         return v;
+      };
+      sj.fwalk = [seq, key] {
+         std::vector<const void*> v;
+         for (auto it = seq->begin(); it != seq->end() and v.size() < 10000; ) { v.push_back(key(*it)); it++; }
+         return v;
+      };
+      sj.rwalk = [seq, key] {
+         std::vector<const void*> v;
+         if (seq->size() == 0) return v;
+         auto it = seq->position(seq->size() - 1);
+         while (v.size() < 10000) {
+            v.push_back(key(*it));
+            if (it == seq->begin()) break;
+            it--;
          }
          return v;
       };
@@ -381,6 +398,10 @@ namespace {
       auto rpit = Value::array();
       try { for (auto p : sj.rpost()) rpit.push(id_of(sj, p)); } catch (const std::logic_error&) { rpit.push(-1); }
       o.set("rpost", rpit);
+      auto fw = Value::array(), rw = Value::array();
+      try { for (auto p : sj.fwalk()) fw.push(id_of(sj, p)); } catch (const std::logic_error&) { fw.push(-1); }
+      try { for (auto p : sj.rwalk()) rw.push(id_of(sj, p)); } catch (const std::logic_error&) { rw.push(-1); }
+      o.set("fwalk", fw).set("rwalk", rw);
       auto bools = [](const std::vector<bool>& v) { auto a = Value::array(); for (bool b : v) a.push(b); return a; };
       o.set("eqd", bools(sj.eqd())).set("eqo", bools(sj.eqo())).set("bend", bools(sj.bend()));
       o.set("iter", it).set("steps", sj.steps()).set("hsize", static_cast<long>(sj.hsize())).set("hat", hat);
@@ -402,7 +423,7 @@ namespace {
 
    std::string first_difference(const Value& e, const Value& g)
    {
-      for (auto f : {"first", "atrev", "size", "empty", "at", "atmax", "huge", "iter", "riter", "post", "rpost", "eqd", "eqo", "bend", "steps", "hsize", "hat"})
+      for (auto f : {"first", "atrev", "size", "empty", "at", "atmax", "huge", "iter", "riter", "post", "rpost", "fwalk", "rwalk", "eqd", "eqo", "bend", "steps", "hsize", "hat"})
          if (not vj::equal(e.at(f), g.at(f))) return f;
       return "other";
    }
